@@ -1784,6 +1784,17 @@ func (x *g) labelled(d int) string {
 func (x *g) destructure(d int) string {
 	kind := x.declKind()
 	x.feat("destructuring")
+	// optionally a declarator with a logged initializer in front of the pattern and a logged source: the
+	// evaluation order of the initializers is then part of the observation
+	lead := ""
+	wrap := func(s string) string { return s }
+	if x.chance("leaddeclarator", 2) {
+		x.feat("destructuring-after-initializer")
+		v := x.freshName(kind)
+		lead = v + x.s() + "=" + x.s() + "$(" + x.numLit() + ")" + x.s() + "," + x.s()
+		x.declare(v, kind, tNum, kind != "const")
+		wrap = func(s string) string { return "($(" + v + ")," + "$(" + s + "))" }
+	}
 	if x.chance("objpattern", 2) {
 		src := x.objExpr(d - 1)
 		a, b := x.freshName(kind), ""
@@ -1799,7 +1810,7 @@ func (x *g) destructure(d int) string {
 		}
 		pat += "}"
 		x.prog.Public = append(x.prog.Public, "p", "q")
-		return kind + " " + pat + x.s() + "=" + x.s() + x.par(src, 1)
+		return kind + " " + lead + pat + x.s() + "=" + x.s() + wrap(x.par(src, 1))
 	}
 	src := x.arrExpr(d - 1)
 	a := x.freshName(kind)
@@ -1816,7 +1827,7 @@ func (x *g) destructure(d int) string {
 		pat = "[," + a + ",," + b
 	}
 	pat += "]"
-	return kind + " " + pat + x.s() + "=" + x.s() + x.par(src, 1)
+	return kind + " " + lead + pat + x.s() + "=" + x.s() + wrap(x.par(src, 1))
 }
 
 // closure: a counter-like function capturing a mutable outer variable
